@@ -85,8 +85,16 @@ func (p *regExpParser) scanGroup() {
 		if str[0] == '?' {
 			if str[1] == '=' || str[1] == '!' {
 				p.error(-1, "re2: Invalid (%s) <lookahead>", p.str[p.chrOffset:p.chrOffset+2])
+			} else if str[1] != ':' {
+				// ES5 15.10.1 knows (?: (?= (?! only; do not let re2 flag or
+				// named groups such as (?i) or (?P<n>...) through.
+				p.error(-1, "Invalid group")
+				p.invalid = true
 			}
 		}
+	} else if str == "?" {
+		p.error(-1, "Invalid group")
+		p.invalid = true
 	}
 	for p.chr != -1 && p.chr != ')' {
 		switch p.chr {
